@@ -157,15 +157,13 @@ def ensure_driver() -> tuple[bool, str]:
     fcntl.flock(lock, fcntl.LOCK_EX)
     try:
         exe = OCAML / "driver"
-        srcs = [COQ / "Extract.v", OCAML / "driver.ml"] + list((COQ / "theories" / "Model").glob("*.v")) + list(
-            (COQ / "theories" / "Spec").glob("*.v")
-        ) + list((COQ / "theories" / "Lib").glob("*.v"))
+        # everything Extract.v imports, transitively (Model / Spec / Lib and the few Proofs files whose definitions are extracted)
+        imported = [f for f in cone_of(COQ / "Extract.v") if f != COQ / "Extract.v"]
+        srcs = [COQ / "Extract.v", OCAML / "driver.ml"] + imported
         if exe.exists() and all(exe.stat().st_mtime >= s.stat().st_mtime for s in srcs):
             return True, "up to date"
         run(["bash", str(COQ / "gen_project.sh")])
-        rc, out = run(["timeout", "1500", "make", "-j16", "theories/Spec/Exec.vo"] + [
-            f"theories/Model/{p.stem}.vo" for p in (COQ / "theories" / "Model").glob("*.v")
-        ] + [f"theories/Spec/{p.stem}.vo" for p in (COQ / "theories" / "Spec").glob("*.v")], cwd=COQ, timeout=1600)
+        rc, out = run(["timeout", "1500", "make", "-j16"] + sorted(str(f.relative_to(COQ).with_suffix(".vo")) for f in imported), cwd=COQ, timeout=1600)
         if rc != 0:
             return False, out[-800:]
         rc, out = run(["coqc", "-Q", str(COQ / "theories"), "GL", str(COQ / "Extract.v")], cwd=OCAML)
